@@ -21,17 +21,22 @@ EXTENDS Integers, Sequences, FiniteSets, TLC, Json
 Alphabets == {"strings", "ints_arbitrary", "pm1", "zero_one", "bools"}
 Estimators == {"SparseLogisticRegression", "LinearSVC", "GLE_Logistic", "GLE_SVC"}
 Renamings == {"none", "order_preserving", "order_reversing", "shuffle"}
+\* how the fit on the renamed labels is made: by a fresh estimator, or by RE-FITTING the same object whose solver
+\* warm-starts from the previous coefficients (binary estimators; the laws are about the fitted model, not its past)
+Refits == {"fresh", "same_object_warm"}
 
 VARIABLES stage, sc
 vars == <<stage, sc>>
 Init == stage = "pick" /\ sc = [est |-> "", alphabet |-> "", k |-> 2, fit_intercept |-> TRUE,
-                                rename |-> "none", storage |-> "dense"]
+                                rename |-> "none", storage |-> "dense", refit |-> "fresh"]
 Pick == /\ stage = "pick"
         /\ \E e \in Estimators : \E a \in Alphabets : \E k \in 2..4 : \E fi \in BOOLEAN : \E r \in Renamings :
-           \E st \in {"dense", "csc"} :
+           \E st \in {"dense", "csc"} : \E rf \in Refits :
+             /\ (rf = "same_object_warm" => r # "none" /\ k = 2)
              /\ (a \in {"pm1", "zero_one", "bools"} => k = 2)
              /\ (e \in {"LinearSVC", "GLE_SVC"} => ~fi)        \* no intercept in the dual formulation
-             /\ sc' = [est |-> e, alphabet |-> a, k |-> k, fit_intercept |-> fi, rename |-> r, storage |-> st]
+             /\ sc' = [est |-> e, alphabet |-> a, k |-> k, fit_intercept |-> fi, rename |-> r, storage |-> st,
+                        refit |-> rf]
              /\ stage' = "emit"
 \* expected effect of the renaming on the fitted rows, per the model
 Effect == IF sc.rename \in {"none", "order_preserving"} THEN "rows_unchanged"
